@@ -76,6 +76,9 @@ pub fn generate(check: &str, tier: &str, seed: u64, run: u64) -> Case {
         "C04" if run % 12 == 9 => crate::gen::gen_arc_drop_order(&mut rng),
         "C04" if run % 12 == 10 => crate::gen::gen_fence_multi(&mut rng, true),
         "C03" if run % 24 == 10 => crate::gen::gen_fence_multi(&mut rng, false),
+        "C07" if run % 12 == 10 => crate::gen::gen_lock_convoy(&mut rng),
+        "C01" if run % 24 == 10 => crate::gen::gen_lock_convoy(&mut rng),
+        "C05" if run % 24 == 10 => crate::gen::gen_lock_convoy(&mut rng),
         "C02" | "C03" => gen_litmus_any(&mut rng, thorough),
         "C01" => {
             if rng.chance(1, 4) {
